@@ -194,7 +194,11 @@ func init() {
 		raw := string(unhx(a[1]))
 		resp := unhx(a[2])
 		k, _ := strconv.Atoi(a[3])
-		run1 := func(debug bool) (string, string, string, int, int) {
+		run1 := func(debug bool, cbs ...string) (string, string, string, int, int) {
+			cb := "both"
+			if len(cbs) > 0 {
+				cb = cbs[0]
+			}
 			rand.Seed(77)
 			d := parseDialCfg(a[0])
 			dlc := &dlConn{resp: resp, k: k, fin: "E"}
@@ -211,9 +215,13 @@ func init() {
 			var gotReq, gotResp []byte
 			rc, pc := 0, 0
 			if debug {
-				dd := wsutil.DebugDialer{Dialer: d,
-					OnRequest:  func(p []byte) { gotReq = append([]byte(nil), p...); rc++ },
-					OnResponse: func(p []byte) { gotResp = append([]byte(nil), p...); pc++ }}
+				dd := wsutil.DebugDialer{Dialer: d}
+				if cb == "both" || cb == "req" {
+					dd.OnRequest = func(p []byte) { gotReq = append([]byte(nil), p...); rc++ }
+				}
+				if cb == "both" || cb == "resp" {
+					dd.OnResponse = func(p []byte) { gotResp = append([]byte(nil), p...); pc++ }
+				}
 				c, b, h, e := dd.Dial(context.Background(), raw)
 				conn, hs, err = c, h, e
 				if b != nil {
@@ -241,7 +249,14 @@ func init() {
 		plain, _, _, _, _ := run1(false)
 		dbg, reqs, gotResp, rc, pc := run1(true)
 		f := strings.Split(reqs, "/")
-		return fmt.Sprintf("same=%d calls=%d/%d repreq=%s sentreq=%s represp=%s %s", b2i(dbg == plain), rc, pc, f[0], f[1], gotResp, plain)
+		// the wrapper with only one of the callbacks, or none, installed
+		others := 1
+		for _, cb := range []string{"req", "resp", "none"} {
+			if o, _, _, _, _ := run1(true, cb); o != plain {
+				others = 0
+			}
+		}
+		return fmt.Sprintf("same=%d calls=%d/%d repreq=%s sentreq=%s represp=%s others=%d %s", b2i(dbg == plain), rc, pc, f[0], f[1], gotResp, others, plain)
 	}
 	register("C11", genC11)
 }
